@@ -228,7 +228,7 @@ func runC05(c *fw.Ctx) {
 	apis := c05APIs(env)
 
 	// (a) exhaustive token soups
-	maxLen := c.Pick(3, 4)
+	maxLen := c.Pick(4, 5)
 	idx := 0
 	var rec func(prefix []string)
 	var seps = []string{" ", ""}
@@ -304,7 +304,7 @@ func runC05(c *fw.Ctx) {
 
 	// (c) random texts, (d) preamble shapes
 	r := c.Rand("random")
-	for i := 0; i < c.PerShard(c.Pick(40000, 1500000)); i++ {
+	for i := 0; i < c.PerShard(c.Pick(400000, 6000000)); i++ {
 		var s string
 		if i%5 == 4 {
 			s = c05Preamble(r)
@@ -324,9 +324,9 @@ func runC05(c *fw.Ctx) {
 
 func init() {
 	fw.Register(&fw.Property{
-		ID:  "C05",
-		Run: runC05,
-		Rule: "inputs = every token sequence up to the tier's length over a 26-token alphabet (space-joined and unseparated), every truncation of a window of every .lisp/.mal file under /repo plus hostile single-rune substitutions, seeded random byte/Unicode/nested texts and preamble shapes; each input goes through 9 reader entry points (READ ±cursor ±environment, READWithPreamble, Read_str with empty/filled placeholder map, read-string via EVAL) and PRINT on success, each under recover() and a 20 s/60 s watchdog; distinct = distinct input texts shorter than 40 bytes",
+		ID:     "C05",
+		Run:    runC05,
+		Rule:   "inputs = every token sequence up to the tier's length over a 26-token alphabet (space-joined and unseparated), every truncation of a window of every .lisp/.mal file under /repo plus hostile single-rune substitutions, seeded random byte/Unicode/nested texts and preamble shapes; each input goes through 9 reader entry points (READ ±cursor ±environment, READWithPreamble, Read_str with empty/filled placeholder map, read-string via EVAL) and PRINT on success, each under recover() and a 20 s/60 s watchdog; distinct = distinct input texts shorter than 40 bytes",
 		Assume: []string{"inputs are at most a few KiB and nested at most 200 deep (host-stack exhaustion on megabytes of '(' is excluded)", "a hang is declared only after 60 s on a re-run; slower-than-20 s cases are counted, not judged"},
 		Finish: func(m *fw.Merged) {
 			m.Floor("api_calls", 100000)
